@@ -692,5 +692,341 @@ theorem capturemark_fwd {S R : STy} {σ : RTy} {core : List Int} {tp : Int} (c :
         by_cases hc0 : c0 = -1 <;> simp [crawlLen, hc1, hc0]
       · rfl
 
+/-! ### Back / Back2 mode -/
+
+/-- Back / Back2 mode: the data `d` of the popped frame on the chain `core`, the frame's typing, the stack -/
+structure BackH (p : Prog) (bs : List Nat) (env : Env) (a : Assign) (s : VMState) (o : Op) (b2 : Bool) (S : STy)
+    (d core : List Int) (tp : Int) (τ τ' : RTy) (cl' : Int) : Prop where
+  tr : s.track = d ++ (core ++ [tp])
+  fd : frameData o b2 = some d.length
+  hS : a.get s.codepos = some S
+  ft : FrameTy p env.len s.codepos o b2 S d ((core.length : Int) + 1) τ (crawlLen s) τ' cl'
+  good : Good p bs env.len a core τ' cl'
+  vals : Vals env.len s.stack τ
+
+/-- effect of `Oneloop|Back` … `Setlazy|Back`: the frame is popped, at most one frame of the same instruction pushed -/
+def NeutralBackEff (s : VMState) (rest : List Int) : Res → Prop
+  | .error f => disc f = false
+  | .ok (s1, e) => s1.stack = s.stack ∧ s1.cap = s.cap ∧
+      (s1.track = rest ∨ ∃ x y, s1.track = (s.codepos : Int) :: ([x, y] ++ rest)) ∧ (e = .back ∨ e = .advance 2)
+
+theorem caseLoopBack_eff {pos i : Int} {rest : List Int} (ht : s.track = pos :: i :: rest) :
+    NeutralBackEff s rest (caseLoopBack s) := by
+  unfold caseLoopBack
+  rw [ht]
+  simp only
+  split
+  · exact ⟨rfl, rfl, Or.inr ⟨_, _, rfl⟩, Or.inr rfl⟩
+  · exact ⟨rfl, rfl, Or.inl rfl, Or.inr rfl⟩
+
+theorem caseLazyBack_eff {pos i : Int} {rest : List Int} (sel : Nat) (ht : s.track = pos :: i :: rest) :
+    NeutralBackEff s rest (caseLazyBack p env sel s) := by
+  unfold caseLazyBack
+  rw [ht]
+  simp only
+  refine eff_bind (P := NeutralBackEff s rest) (operand_nodisc _ _ _) (fun _ h => h) (fun x _ => ?_)
+  refine eff_bind (P := NeutralBackEff s rest) (charPred_nodisc _ _ _ _) (fun _ h => h) (fun pred _ => ?_)
+  refine eff_bind (P := NeutralBackEff s rest) (forwardcharnext_nodisc _ _ _) (fun _ h => h) (fun cp _ => ?_)
+  obtain ⟨ch, pos'⟩ := cp
+  simp only
+  split
+  · split
+    · exact ⟨rfl, rfl, Or.inr ⟨_, _, rfl⟩, Or.inr rfl⟩
+    · exact ⟨rfl, rfl, Or.inl rfl, Or.inr rfl⟩
+  · exact ⟨rfl, rfl, Or.inl rfl, Or.inl rfl⟩
+
+theorem neutral_back {S : STy} {d core : List Int} {tp : Int} {τ τ' : RTy} {cl' : Int} (c : Ctx p bs env s w o)
+    (ho : o = .oneloop ∨ o = .notoneloop ∨ o = .setloop ∨ o = .onelazy ∨ o = .notonelazy ∨ o = .setlazy)
+    (b : BackH p bs env a s o false S d core tp τ τ' cl') (hn : NextOk a (s.codepos + 3) S)
+    (r : Res) (he : NeutralBackEff s (core ++ [tp]) r) : TBodyOk p bs env.len a s.codepos r := by
+  have hft : subTy (erase τ) S = true ∧ τ' = τ ∧ cl' = crawlLen s := by
+    have := b.ft
+    rcases ho with rfl | rfl | rfl | rfl | rfl | rfl <;> exact this
+  obtain ⟨hsub, rfl, rfl⟩ := hft
+  cases r with
+  | error f => exact he
+  | ok r =>
+    obtain ⟨s1, e⟩ := r
+    obtain ⟨hst, hcap, htr, hex⟩ := he
+    have hcl : crawlLen s1 = crawlLen s := by unfold crawlLen; rw [hcap]
+    have hch : ChainS p bs env.len a s1 τ' := by
+      rcases htr with ht | ⟨x, y, ht⟩
+      · exact ⟨core, tp, ht, by rw [hcl]; exact b.good, by rw [hst]; exact b.vals⟩
+      · refine ⟨(s.codepos : Int) :: ([x, y] ++ core), tp, by rw [ht]; simp, ?_, by rw [hst]; exact b.vals⟩
+        rw [hcl]
+        refine good_push c false [x, y] core S τ' τ' _ _ ?_ (by intro h; cases h) b.hS ?_ b.good
+        · rcases ho with rfl | rfl | rfl | rfl | rfl | rfl <;> rfl
+        · rcases ho with rfl | rfl | rfl | rfl | rfl | rfl <;> exact ⟨hsub, rfl, rfl⟩
+    rcases hex with rfl | rfl
+    · exact ⟨τ', hch⟩
+    · exact ⟨τ', hch, hn.succ hsub⟩
+
+theorem lazybranch_back {S : STy} {d core : List Int} {tp : Int} {τ τ' : RTy} {cl' : Int} (ho : o = .lazybranch)
+    (b : BackH p bs env a s o false S d core tp τ τ' cl')
+    (hj : ∀ t, p.codes[s.codepos + 1]? = some t → NextOk a t.toNat S) :
+    TBodyOk p bs env.len a s.codepos (caseLazybranchBack p s) := by
+  subst ho
+  obtain ⟨tp', rfl⟩ := len1 b.fd
+  obtain ⟨hsub, rfl, rfl⟩ : subTy (erase τ) S = true ∧ τ' = τ ∧ cl' = crawlLen s := b.ft
+  unfold caseLazybranchBack
+  rw [b.tr]
+  simp only [List.cons_append, List.nil_append]
+  cases h0 : operand p s 0 with
+  | error f => exact operand_nodisc _ _ _ _ h0
+  | ok t => exact Or.inl ⟨τ', ⟨core, tp, rfl, b.good, b.vals⟩, (hj t (operand_val h0)).succ hsub⟩
+
+theorem lazybranch_back_root (c : Ctx p bs env s w o) (hpc : s.codepos = 0) {tp : Int} (ht : s.track = [tp]) :
+    TBodyOk p bs env.len a s.codepos (caseLazybranchBack p s) := by
+  unfold caseLazybranchBack
+  rw [ht]
+  simp only
+  cases h0 : operand p s 0 with
+  | error f => exact operand_nodisc _ _ _ _ h0
+  | ok t =>
+    refine Or.inr ⟨rfl, ?_⟩
+    obtain ⟨t0, wt, hc1, _, hf, hs⟩ := c.wf.rootTarget
+    have := operand_val h0
+    rw [hpc] at this
+    simp only [Nat.zero_add] at this
+    rw [hc1] at this
+    cases this
+    exact ⟨wt, hf, hs⟩
+
+theorem pop1_back {S : STy} {d core : List Int} {tp : Int} {τ τ' : RTy} {cl' : Int} (ho : o = .setmark ∨ o = .nullmark)
+    (b : BackH p bs env a s o false S d core tp τ τ' cl') :
+    TBodyOk p bs env.len a s.codepos (casePop1Back s) := by
+  have hd : d = [] := by rcases ho with rfl | rfl <;> exact len0 b.fd
+  subst hd
+  obtain ⟨k, hτ, hcl⟩ : ∃ k, τ = k :: τ' ∧ cl' = crawlLen s := by
+    have := b.ft
+    rcases ho with rfl | rfl <;> exact ⟨_, this.1, this.2⟩
+  subst hτ hcl
+  obtain ⟨v, rest, hst, _, hvals⟩ := b.vals.cons_inv
+  unfold casePop1Back
+  rw [hst]
+  exact ⟨τ', core, tp, b.tr, b.good, hvals⟩
+
+theorem pop2_back {S : STy} {d core : List Int} {tp : Int} {τ τ' : RTy} {cl' : Int}
+    (ho : o = .setcount ∨ o = .nullcount ∨ o = .setjump)
+    (b : BackH p bs env a s o false S d core tp τ τ' cl') :
+    TBodyOk p bs env.len a s.codepos (casePop2Back s) := by
+  have hd : d = [] := by rcases ho with rfl | rfl | rfl <;> exact len0 b.fd
+  subst hd
+  obtain ⟨k1, k2, hτ, hcl⟩ : ∃ k1 k2, τ = k1 :: k2 :: τ' ∧ cl' = crawlLen s := by
+    have := b.ft
+    rcases ho with rfl | rfl | rfl <;> first | exact ⟨_, _, this.1, this.2⟩ | exact ⟨_, _, this.1, this.2.1⟩
+  subst hτ hcl
+  obtain ⟨v1, rest1, hst, _, hvals1⟩ := b.vals.cons_inv
+  obtain ⟨v2, rest, rfl, _, hvals⟩ := hvals1.cons_inv
+  unfold casePop2Back
+  rw [hst]
+  exact ⟨τ', core, tp, b.tr, b.good, hvals⟩
+
+theorem restore_back {S : STy} {d core : List Int} {tp : Int} {τ τ' : RTy} {cl' : Int} {b2 : Bool}
+    (ho : (o = .getmark ∧ b2 = false) ∨ (o = .branchmark ∧ b2 = true))
+    (b : BackH p bs env a s o b2 S d core tp τ τ' cl') :
+    TBodyOk p bs env.len a s.codepos (caseRestoreBack s) := by
+  obtain ⟨v, rfl⟩ : ∃ v, d = [v] := by rcases ho with ⟨rfl, rfl⟩ | ⟨rfl, rfl⟩ <;> exact len1 b.fd
+  obtain ⟨⟨k, rfl, hk, hv⟩, rfl⟩ :
+      (∃ k, τ' = k :: τ ∧ k.isMark = true ∧ valOk env.len k v) ∧ cl' = crawlLen s := by
+    have := b.ft
+    rcases ho with ⟨rfl, rfl⟩ | ⟨rfl, rfl⟩ <;> exact this
+  unfold caseRestoreBack restoreMark
+  rw [b.tr]
+  simp only [List.cons_append, List.nil_append, Except.map]
+  exact ⟨k :: τ, core, tp, rfl, b.good, ⟨hv, b.vals⟩⟩
+
+theorem uncapture_spec (s1 : VMState) (h : 1 ≤ crawlLen s1) :
+    ∃ s2, uncapture s1 = .ok s2 ∧ SameButCap s1 s2 ∧ crawlLen s2 = crawlLen s1 - 1 := by
+  unfold crawlLen at h
+  cases hcr : s1.cap.crawl with
+  | nil => rw [hcr] at h; simp at h
+  | cons x rest =>
+    refine ⟨{ s1 with cap := MatchBuilder.uncapture s1.cap }, by simp [uncapture, hcr], ⟨rfl, rfl, rfl, rfl, rfl⟩, ?_⟩
+    simp [crawlLen, MatchBuilder.uncapture, hcr]
+
+theorem capturemark_back {S : STy} {d core : List Int} {tp : Int} {τ τ' : RTy} {cl' : Int} (ho : o = .capturemark)
+    (b : BackH p bs env a s o false S d core tp τ τ' cl') :
+    TBodyOk p bs env.len a s.codepos (caseCapturemarkBack p s) := by
+  subst ho
+  obtain ⟨v, rfl⟩ := len1 b.fd
+  obtain ⟨⟨k, rfl, hk, hv⟩, rfl, hK⟩ :
+      (∃ k, τ' = k :: τ ∧ k.isMark = true ∧ valOk env.len k v) ∧ cl' = crawlLen s - capK p s.codepos ∧
+        capK p s.codepos ≤ crawlLen s := b.ft
+  unfold caseCapturemarkBack restoreMark
+  refine eff_bind (P := TBodyOk p bs env.len a s.codepos) (operand_nodisc _ _ _) (fun _ h => h) (fun c0 h0 => ?_)
+  refine eff_bind (P := TBodyOk p bs env.len a s.codepos) (operand_nodisc _ _ _) (fun _ h => h) (fun c1 h1 => ?_)
+  have e0 := operand_val h0
+  have e1 := operand_val h1
+  have hKd : capK p s.codepos = if (c0 != -1 && c1 != -1) = true then 2 else 1 := by
+    unfold capK; simp only [e0, e1, Option.getD_some]
+  have hp := capK_pos p s.codepos
+  rw [b.tr]
+  simp only [List.cons_append, List.nil_append, bind, Except.bind]
+  obtain ⟨s2, e2, ⟨a1, a2, a3, a4, a5⟩, hl2⟩ := uncapture_spec (spush { s with track := core ++ [tp] } v)
+    (by simp only [crawlLen, spush] at hK ⊢; omega)
+  rw [e2]
+  simp only
+  have hl2' : crawlLen s2 = crawlLen s - 1 := by rw [hl2]; simp [crawlLen, spush]
+  split
+  · next hc =>
+    rw [if_pos hc] at hKd
+    obtain ⟨s3, e3, ⟨b1, b2, b3, b4, b5⟩, hl3⟩ := uncapture_spec s2 (by omega)
+    rw [e3]
+    refine ⟨k :: τ, core, tp, by rw [b1, a1]; rfl, ?_, ?_⟩
+    · have : crawlLen s3 = crawlLen s - capK p s.codepos := by omega
+      rw [this]; exact b.good
+    · rw [b5, a5]; exact ⟨hv, b.vals⟩
+  · next hc =>
+    rw [if_neg hc] at hKd
+    refine ⟨k :: τ, core, tp, by rw [a1]; rfl, ?_, ?_⟩
+    · have : crawlLen s2 = crawlLen s - capK p s.codepos := by omega
+      rw [this]; exact b.good
+    · rw [a5]; exact ⟨hv, b.vals⟩
+
+theorem branchmark_back {S : STy} {d core : List Int} {tp : Int} {τ τ' : RTy} {cl' : Int} (c : Ctx p bs env s w o)
+    (ho : o = .branchmark) (b : BackH p bs env a s o false S d core tp τ τ' cl')
+    (hn : ∀ K R, S = K :: R → NextOk a (s.codepos + 2) R) :
+    TBodyOk p bs env.len a s.codepos (caseBranchmarkBack s) := by
+  subst ho
+  obtain ⟨tp', mark, rfl⟩ := len2 b.fd
+  obtain ⟨⟨r, k, K, R, rfl, hS, hr, rfl, hk, hv⟩, rfl⟩ :
+      (∃ r k K R, τ = .pos :: r ∧ S = K :: R ∧ subTy (erase r) R = true ∧ τ' = k :: r ∧ k.isMark = true ∧
+        valOk env.len k mark) ∧ cl' = crawlLen s := b.ft
+  obtain ⟨x, srest, hst, _, hvals⟩ := b.vals.cons_inv
+  unfold caseBranchmarkBack
+  rw [b.tr, hst]
+  simp only [List.cons_append, List.nil_append]
+  refine ⟨r, ⟨-(s.codepos : Int) :: ([mark] ++ core), tp, by simp [pushNeg1, textto], ?_, hvals⟩, (hn K R hS).succ hr⟩
+  exact good_push c true [mark] core S r (k :: r) _ _ rfl (by intro _ h; cases h) b.hS ⟨⟨k, rfl, hk, hv⟩, rfl⟩ b.good
+
+theorem lazybranchmark_back {S : STy} {d core : List Int} {tp : Int} {τ τ' : RTy} {cl' : Int} (c : Ctx p bs env s w o)
+    (ho : o = .lazybranchmark) (b : BackH p bs env a s o false S d core tp τ τ' cl')
+    (hj : ∀ K R t, S = K :: R → p.codes[s.codepos + 1]? = some t → NextOk a t.toNat (.pos :: R)) :
+    TBodyOk p bs env.len a s.codepos (caseLazybranchmarkBack p s) := by
+  subst ho
+  obtain ⟨pos, old, rfl⟩ := len2 b.fd
+  obtain ⟨⟨k, K, R, hS, hr, hp0, hpn, rfl, hk, hv⟩, rfl⟩ :
+      (∃ k K R, S = K :: R ∧ subTy (erase τ) R = true ∧ 0 ≤ pos ∧ pos ≤ env.len ∧ τ' = k :: τ ∧ k.isMark = true ∧
+        valOk env.len k old) ∧ cl' = crawlLen s := b.ft
+  unfold caseLazybranchmarkBack
+  rw [b.tr]
+  simp only [List.cons_append, List.nil_append]
+  cases h0 : operand p s 0 with
+  | error f => exact operand_nodisc _ _ _ _ h0
+  | ok t =>
+    refine Or.inl ⟨.pos :: τ, ⟨-(s.codepos : Int) :: ([1, old] ++ core), tp, by simp [pushNeg2, textto, spush], ?_,
+      ⟨⟨hp0, hpn⟩, b.vals⟩⟩, (hj K R t hS (operand_val h0)).succ (subTy_cons (Kind.sub_refl _) hr)⟩
+    exact good_push c true [1, old] core S (.pos :: τ) (k :: τ) _ _ rfl (by intro _ h; cases h) b.hS
+      ⟨⟨k, hk, hv, by simp⟩, rfl⟩ b.good
+
+theorem lazybranchmark_back2 {S : STy} {d core : List Int} {tp : Int} {τ τ' : RTy} {cl' : Int}
+    (ho : o = .lazybranchmark) (b : BackH p bs env a s o true S d core tp τ τ' cl') :
+    TBodyOk p bs env.len a s.codepos (caseLazybranchmarkBack2 s) := by
+  subst ho
+  obtain ⟨np, old, rfl⟩ := len2 b.fd
+  obtain ⟨⟨k, hk, hv, hif⟩, rfl⟩ :
+      (∃ k : RK, k.isMark = true ∧ valOk env.len k old ∧
+        (if np != 0 then ∃ r, τ = .pos :: r ∧ τ' = k :: r else τ' = k :: τ)) ∧ cl' = crawlLen s := b.ft
+  unfold caseLazybranchmarkBack2
+  rw [b.tr]
+  simp only [List.cons_append, List.nil_append]
+  split
+  · next hnp =>
+    rw [if_pos hnp] at hif
+    obtain ⟨r, rfl, rfl⟩ := hif
+    obtain ⟨x, srest, hst, _, hvals⟩ := b.vals.cons_inv
+    rw [hst]
+    exact ⟨k :: r, core, tp, rfl, b.good, ⟨hv, hvals⟩⟩
+  · next hnp =>
+    rw [if_neg hnp] at hif
+    subst hif
+    exact ⟨k :: τ, core, tp, rfl, b.good, ⟨hv, b.vals⟩⟩
+
+theorem branchcount_back {S : STy} {d core : List Int} {tp : Int} {τ τ' : RTy} {cl' : Int} (c : Ctx p bs env s w o)
+    (ho : o = .branchcount) (b : BackH p bs env a s o false S d core tp τ τ' cl')
+    (hn : ∀ K R, S = .count :: K :: R → NextOk a (s.codepos + 3) R) :
+    TBodyOk p bs env.len a s.codepos (caseBranchcountBack env s) := by
+  subst ho
+  obtain ⟨pmark, rfl⟩ := len1 b.fd
+  obtain ⟨⟨r, k, K, R, rfl, hS, hr, rfl, hk, hv⟩, rfl⟩ :
+      (∃ r k K R, τ = .count :: .pos :: r ∧ S = .count :: K :: R ∧ subTy (erase r) R = true ∧ τ' = .count :: k :: r ∧
+        k.isMark = true ∧ valOk env.len k pmark) ∧ cl' = crawlLen s := b.ft
+  obtain ⟨cnt, rest1, hst, _, hvals1⟩ := b.vals.cons_inv
+  obtain ⟨mark, srest, rfl, hm, hvals⟩ := hvals1.cons_inv
+  unfold caseBranchcountBack
+  rw [b.tr, hst]
+  simp only [List.cons_append, List.nil_append]
+  split
+  · simp only [texttoStack, if_pos (show 0 ≤ mark ∧ mark ≤ env.len from hm), Except.map]
+    refine ⟨r, ⟨-(s.codepos : Int) :: ([cnt - 1, pmark] ++ core), tp, by simp [pushNeg2, textto], ?_, hvals⟩,
+      (hn K R hS).succ hr⟩
+    exact good_push c true [cnt - 1, pmark] core S r (.count :: k :: r) _ _ rfl (by intro _ h; cases h) b.hS
+      ⟨⟨k, rfl, hk, hv⟩, rfl⟩ b.good
+  · exact ⟨.count :: k :: r, core, tp, rfl, b.good, ⟨trivial, hv, hvals⟩⟩
+
+theorem branchcount_back2 {S : STy} {d core : List Int} {tp : Int} {τ τ' : RTy} {cl' : Int}
+    (ho : o = .branchcount) (b : BackH p bs env a s o true S d core tp τ τ' cl') :
+    TBodyOk p bs env.len a s.codepos (caseBranchcountBack2 s) := by
+  subst ho
+  obtain ⟨cnt, mark, rfl⟩ := len2 b.fd
+  obtain ⟨⟨k, rfl, hk, hv⟩, rfl⟩ :
+      (∃ k, τ' = .count :: k :: τ ∧ k.isMark = true ∧ valOk env.len k mark) ∧ cl' = crawlLen s := b.ft
+  unfold caseBranchcountBack2
+  rw [b.tr]
+  simp only [List.cons_append, List.nil_append]
+  exact ⟨.count :: k :: τ, core, tp, rfl, b.good, ⟨trivial, hv, b.vals⟩⟩
+
+theorem lazybranchcount_back {S : STy} {d core : List Int} {tp : Int} {τ τ' : RTy} {cl' : Int} (c : Ctx p bs env s w o)
+    (ho : o = .lazybranchcount) (b : BackH p bs env a s o false S d core tp τ τ' cl')
+    (hj : ∀ K R t, S = .count :: K :: R → p.codes[s.codepos + 1]? = some t → NextOk a t.toNat (.count :: .pos :: R)) :
+    TBodyOk p bs env.len a s.codepos (caseLazybranchcountBack p s) := by
+  subst ho
+  obtain ⟨tp', cnt, mark, rfl⟩ := len3 b.fd
+  obtain ⟨⟨k, K, R, hS, hr, hp0, hpn, rfl, hk, hv⟩, rfl⟩ :
+      (∃ k K R, S = .count :: K :: R ∧ subTy (erase τ) R = true ∧ 0 ≤ tp' ∧ tp' ≤ env.len ∧ τ' = .count :: k :: τ ∧
+        k.isMark = true ∧ valOk env.len k mark) ∧ cl' = crawlLen s := b.ft
+  unfold caseLazybranchcountBack
+  rw [b.tr]
+  simp only [List.cons_append, List.nil_append]
+  refine eff_bind (P := TBodyOk p bs env.len a s.codepos) (operand_nodisc _ _ _) (fun _ h => h) (fun lim _ => ?_)
+  split
+  · refine eff_bind (P := TBodyOk p bs env.len a s.codepos) (operand_nodisc _ _ _) (fun _ h => h) (fun t ht => ?_)
+    refine Or.inl ⟨.count :: .pos :: τ, ⟨-(s.codepos : Int) :: ([mark] ++ core), tp,
+      by simp [pushNeg1, spush2, textto], ?_, ⟨trivial, ⟨hp0, hpn⟩, b.vals⟩⟩,
+      (hj K R t hS (operand_val ht)).succ (subTy_cons (Kind.sub_refl _) (subTy_cons (Kind.sub_refl _) hr))⟩
+    exact good_push c true [mark] core S (.count :: .pos :: τ) (.count :: k :: τ) _ _ rfl (by intro _ h; cases h) b.hS
+      ⟨⟨τ, k, rfl, rfl, hk, hv⟩, rfl⟩ b.good
+  · exact ⟨.count :: k :: τ, core, tp, rfl, b.good, ⟨trivial, hv, b.vals⟩⟩
+
+theorem lazybranchcount_back2 {S : STy} {d core : List Int} {tp : Int} {τ τ' : RTy} {cl' : Int}
+    (ho : o = .lazybranchcount) (b : BackH p bs env a s o true S d core tp τ τ' cl') :
+    TBodyOk p bs env.len a s.codepos (caseLazybranchcountBack2 s) := by
+  subst ho
+  obtain ⟨pmark, rfl⟩ := len1 b.fd
+  obtain ⟨⟨r, k, rfl, rfl, hk, hv⟩, rfl⟩ :
+      (∃ r k, τ = .count :: .pos :: r ∧ τ' = .count :: k :: r ∧ k.isMark = true ∧ valOk env.len k pmark) ∧
+        cl' = crawlLen s := b.ft
+  obtain ⟨cnt, rest1, hst, _, hvals1⟩ := b.vals.cons_inv
+  obtain ⟨mark, srest, rfl, hm, hvals⟩ := hvals1.cons_inv
+  unfold caseLazybranchcountBack2
+  rw [b.tr, hst]
+  simp only [List.cons_append, List.nil_append]
+  exact ⟨.count :: k :: r, core, tp, rfl, b.good, ⟨trivial, hv, hvals⟩⟩
+
+theorem forejump_back {S : STy} {d core : List Int} {tp : Int} {τ τ' : RTy} {cl' : Int}
+    (ho : o = .forejump) (b : BackH p bs env a s o false S d core tp τ τ' cl') :
+    TBodyOk p bs env.len a s.codepos (caseForejumpBack s) := by
+  subst ho
+  obtain ⟨cp, rfl⟩ := len1 b.fd
+  obtain ⟨rfl, rfl, h0, hl⟩ : τ' = τ ∧ cl' = cp ∧ 0 ≤ cp ∧ cp ≤ crawlLen s := b.ft
+  unfold caseForejumpBack
+  rw [b.tr]
+  simp only [List.cons_append, List.nil_append]
+  obtain ⟨s2, e, ⟨b1, b2, b3, b4, b5⟩, hl2⟩ := uncaptureTo_spec cl' s.cap.crawl.length
+    { s with track := core ++ [tp] } h0 hl (by simp only [crawlLen]; omega)
+  rw [e]
+  exact ⟨τ', core, tp, b1, by rw [hl2]; exact b.good, by rw [b5]; exact b.vals⟩
+
 end cases
 end RegexVerif.Lemmas.StackTypingSound
